@@ -473,6 +473,7 @@ type worldCfg struct {
 	spare    bool // option slices have spare capacity
 	cfgStyle int  // Endpoint.AuthStyle of the caller's oauth2.Config
 	audHas   bool // storage-owned device state: audience already contains the client id
+	sigAlg   int  // index into sigAlgs: the signing algorithm of every OP of this world (0 = the default ES256)
 }
 
 type world struct {
@@ -543,7 +544,9 @@ func newWorld(cfg worldCfg) *world {
 	restorePristine()
 	runCounter++
 	w := &world{cfg: cfg, reg: newRegistry(), inst: map[int]any{}, stores: map[int]*refstore.Store{}, customEps: map[string]*op.Endpoint{}}
-	f, err := opfix.New(opfix.NewStd(), opfix.Options{})
+	st1 := opfix.NewStd()
+	st1.Signing = signingFor(cfg.sigAlg, 1)
+	f, err := opfix.New(st1, opfix.Options{})
 	if err != nil {
 		panic(err)
 	}
@@ -559,7 +562,7 @@ func newWorld(cfg worldCfg) *world {
 		jose.JSONWebKey{Key: &opfix.ECKey("c20-enc").PublicKey, KeyID: "enc-1", Use: "enc"},
 		jose.JSONWebKey{Key: &opfix.RSAKey().PublicKey, KeyID: "", Use: ""})
 	st2 := opfix.NewStd()
-	st2.Signing = &refstore.SigningKey{KID: opfix.DefaultSigning().KID, Alg: opfix.DefaultSigning().Alg, Priv: tenant2Key}
+	st2.Signing = signingFor(cfg.sigAlg, 2)
 	if w.backend2, err = opfix.New(st2, opfix.Options{Issuer: issuer2}); err != nil {
 		panic(err)
 	}
@@ -604,10 +607,10 @@ func newWorld(cfg worldCfg) *world {
 	w.reg.id(fnKey(http.RedirectHandler)) // spacer: keeps later ids apart from handler ids
 	ic := func(h http.Handler) http.Handler { return h }
 	w.interceptors = mkSlice(cfg.spare, op.HttpInterceptor(ic))
-	w.atOpts = mkSlice(cfg.spare, op.WithSupportedAccessTokenSigningAlgorithms("ES256", "RS256"))
-	w.idhOpts = mkSlice(cfg.spare, op.WithSupportedIDTokenHintSigningAlgorithms("ES256", "RS256"))
+	w.atOpts = mkSlice(cfg.spare, op.WithSupportedAccessTokenSigningAlgorithms(sigAlgNames()...))
+	w.idhOpts = mkSlice(cfg.spare, op.WithSupportedIDTokenHintSigningAlgorithms(sigAlgNames()...))
 	w.rpScopes = mkSlice(cfg.spare, "openid", "profile", "offline_access")
-	w.rpVerOpts = mkSlice(cfg.spare, rp.WithSupportedSigningAlgorithms("ES256", "RS256"))
+	w.rpVerOpts = mkSlice(cfg.spare, rp.WithSupportedSigningAlgorithms(sigAlgNames()...))
 	w.srvOpts = mkSlice(cfg.spare, op.WithFallbackLogger(quiet))
 	w.oauthCfg = &oauth2.Config{ClientID: "web", ClientSecret: "web-secret", RedirectURL: "https://web.example.com/cb",
 		Scopes: []string{"openid"}, Endpoint: oauth2.Endpoint{AuthURL: opfix.Issuer + "/authorize", TokenURL: opfix.Issuer + "/oauth/token",
